@@ -18,7 +18,8 @@ FILES = {
     "utils.py": "class A:\n    pass\n\n\nclass B:\n    pass\n",
     "pkg/__init__.py": "class PkgCls:\n    pass\n",
     "pkg/utils.py": "class B:\n    pass\n\n\nclass C:\n    pass\n",
-    "foo.py": "class foo:\n    pass\n\n\nclass Baz:\n    pass\n",
+    # a class named like its module, with a nested class: `foo.foo.Inner` must lose one `foo.` only
+    "foo.py": "class foo:\n    class Inner:\n        pass\n\n\nclass Baz:\n    pass\n",
     "barfoo.py": "class Bar:\n    pass\n\n\nclass NoneTypeHolder:\n    pass\n",
     "nest.py": ("class Outer:\n    class Inner:\n        class Deep:\n            pass\n\n\n"
                 # an outer class whose name ends like the module `foo`: `foo.` occurs inside `Myfoo.Inner`
@@ -62,7 +63,7 @@ class Gen(types_gen.TypeGen):
         self.rng = rng
         cid = lambda c: ("cls", str(tbl.of(c)))
         user = [mods["utils"].A, mods["utils"].B, mods["pkg"].PkgCls, mods["pkg.utils"].B, mods["pkg.utils"].C,
-                mods["foo"].foo, mods["foo"].Baz, mods["barfoo"].Bar, mods["barfoo"].NoneTypeHolder,
+                mods["foo"].foo, mods["foo"].foo.Inner, mods["foo"].Baz, mods["barfoo"].Bar, mods["barfoo"].NoneTypeHolder,
                 mods["nest"].Outer, mods["nest"].Outer.Inner, mods["nest"].Outer.Inner.Deep, mods["nest"].Myfoo.Inner,
                 mods["target"].Own, io.StringIO, io.BytesIO]
         self.atoms = [cid(int), cid(str), cid(type(None)), cid(float), cid(bool)]
